@@ -43,7 +43,21 @@ normalisation, i.e. object identity (`is`) of returned Parents / locations is no
 documented to hand out shared instances; (iii) private (underscore) members, documented in-place mutators used during
 construction (_reset_parent, _liftover_this_location_to_seq_chunk_parent) and deprecated / unimplemented members
 (c10gen.DENY) are never called; (iv) a root whose constructor refuses the spec is skipped (counted) - refusals belong to
-C19; (v) the spec-anchor monitor compares spliced sequence only on plus-strand parents with every block inside the chunk.
+C19; (v) the spec-anchor monitor compares spliced sequence only on plus-strand parents with every block inside the chunk,
+and is_overlapping only for locations without empty blocks.
+
+Reports on the unchanged tree (each reproduced by hand, patches in /verif/proposed_fixes/C10-*.diff keep the pinned baseline
+at 1466 passed and the shimmed full suite at 2117 passed / 3 failed[vcf]):
+  F2  CDSInterval.extract_sequence() answers with a plain str once chunk_relative_codon_locations was listed (Sequence
+      before); has_valid_stop then dies with AttributeError.  Same switch, second face: a CDS without a complete codon and
+      without a sequence refuses with NullParentException / NullSequenceException when fresh and answers '' afterwards.
+  F3  _merge_qualifiers / GeneInterval.export_qualifiers / FeatureIntervalCollection.export_qualifiers copy the qualifier
+      dictionary shallowly and then update the value sets: export_qualifiers(), to_gff() of an object or of its parent grow
+      the object's own qualifier sets (qualifiers, to_dict(), ==, from_dict(to_dict()).guid, query results all drift).
+  F16 (new) "chromosome" and SequenceType.CHROMOSOME compare and hash equal, so both spellings share one entry of the
+      lru_cache around Parent and _unique_value_or_none: Parent(...).sequence_type / parent_type / repr answer with whichever
+      spelling was cached first in the process (type str vs SequenceType).  classify() recognises exactly this difference
+      (key K-parent-cache-sequence-type-spelling) in case the lead prefers recording over the canonicalising patch.
 """
 import dataclasses
 import enum
@@ -68,18 +82,16 @@ RULE = (
     "asked on an object that had been asked other questions before."
 )
 SCOPE = {
-    "quick": {"NH": 3, "roots": {"loc": 6, "seq": 2, "codon": 1, "tx": 3, "cds": 3, "feat": 2, "var": 1, "gene": 2, "fcoll": 1, "vcoll": 1, "coll": 1},
+    # roots per shard (16 shards); every root brings its children / CDS / parents along as further targets
+    "quick": {"NH": 3, "roots": {"loc": 6, "seq": 2, "codon": 1, "tx": 4, "cds": 4, "feat": 2, "var": 1, "gene": 3, "fcoll": 1, "vcoll": 1, "coll": 2},
               "qcap": {"leaf": 150, "mid": 130, "coll": 80}, "opcap": {"leaf": 90, "mid": 70, "coll": 40}},
     "thorough": {"NH": 8, "roots": {"loc": 40, "seq": 12, "codon": 4, "tx": 24, "cds": 24, "feat": 12, "var": 6, "gene": 14, "fcoll": 6, "vcoll": 5, "coll": 7},
-                 "qcap": {"leaf": 260, "mid": 220, "coll": 150}, "opcap": {"leaf": 160, "mid": 120, "coll": 60}},
+                 "qcap": {"leaf": 400, "mid": 320, "coll": 220}, "opcap": {"leaf": 200, "mid": 150, "coll": 80}},
 }
-FLOOR = {"quick": 1500, "thorough": 5000}
+FLOOR = {"quick": 8000, "thorough": 12000}
 REQUIRED_MONITORS = ["hist.twin", "hist.repeat", "hist.anchor", "ops.operand-unchanged", "ops.argument-unchanged", "ops.equal-to-twin"]
 _I = "inscripta.biocantor."
-REACH = [
-    _I + "parent.parent:_unique_value_or_none",
-    _I + "parent.parent:Parent.strand",
-    _I + "parent.parent:Parent.reset_location",
+REACH = [  # (gene / location modules first: importing parent.parent before location runs into the package's import cycle)
     _I + "gene.interval:AbstractFeatureInterval._merge_qualifiers",
     _I + "gene.interval:AbstractFeatureInterval.chromosome_location",
     _I + "gene.interval:AbstractInterval.chromosome_location",
@@ -99,6 +111,9 @@ REACH = [
     _I + "location.location_impl:SingleInterval.extract_sequence",
     _I + "location.location_impl:CompoundInterval._single_intervals",
     _I + "location.location_impl:CompoundInterval.is_overlapping",
+    _I + "parent.parent:_unique_value_or_none",
+    _I + "parent.parent:Parent.strand",
+    _I + "parent.parent:Parent.reset_location",
 ]
 REACH_REQUIRED = REACH
 ASSUMPTIONS = [
@@ -204,12 +219,37 @@ def _try(fn):
 
 def _norm_loc(v, depth, with_parent=True):
     t = type(v).__name__
-    blocks = _try(lambda: [[b.start, b.end] for b in v.blocks])
+    blocks = _try(lambda: [[b.start, b.end, b.strand.to_symbol()] for b in v.blocks])
     strand = _safe(lambda: v.strand.name if v.strand is not None else None)
     out = ["location:" + t, blocks, strand]
     if with_parent:
         out.append(norm(_safe(lambda: v.parent), depth + 1))
     return out
+
+
+_SPELL = {"SequenceType.CHROMOSOME": "chromosome", "SequenceType.SEQUENCE_CHUNK": "sequence_chunk"}
+
+
+def canon_sequence_type(n):
+    """The normal form with every SequenceType member replaced by its string value (used only to *describe* a difference:
+    "equal apart from the spelling of a sequence type")."""
+    if isinstance(n, list):
+        if len(n) == 2 and n[0] == "enum:SequenceType" and isinstance(n[1], str):
+            return ["str", n[1].lower()]
+        return [canon_sequence_type(x) for x in n]
+    if isinstance(n, str) and "SequenceType." in n:
+        for k, v in _SPELL.items():
+            n = n.replace(k, v)
+    return n
+
+
+def _witness(n, limit=8000):
+    """The full normal form as a JSON string (the evidence writer truncates deep structures, a string passes unchanged)
+    when it is small enough to be stored in a replay file, else None."""
+    import json
+
+    s = json.dumps(n)
+    return s if len(s) <= limit else None
 
 
 def top_type(n):
@@ -310,6 +350,17 @@ def cache_clear(ctx, rng):
 
 
 def lookalike_objects(ctx, case, cats, rng):
+    if case["kind"] == "codon":
+        from inscripta.biocantor.gene.codon import Codon
+
+        for c in case["noise"]:
+            try:
+                x = Codon(c)
+                _ = (str(x), x.translate(strict=False), x.is_stop_codon)
+            except Exception:  # noqa: BLE001 - invalid codons are refused; the refusal must leave the registry usable
+                ctx.bump("lookalike.codons-refused")
+            ctx.bump("lookalike.codons")
+        return
     how = rng.choice(["same", "shift", "strand", "genome"])
     try:
         lc = CG.lookalike(case, how, rng)
@@ -367,7 +418,7 @@ def selftest():
     c = SingleInterval(0, 4, Strand.PLUS, parent=Parent(id="p", sequence=s))
     if norm(a) == norm(b) or norm(a) == norm(c) or norm(a) != norm(SingleInterval(0, 4, Strand.PLUS)):
         raise HarnessError("normaliser: location identity")
-    if norm(CompoundInterval([0, 5], [3, 7], Strand.PLUS))[1] != [[0, 3], [5, 7]]:
+    if norm(CompoundInterval([0, 5], [3, 7], Strand.PLUS))[1] != [[0, 3, "+"], [5, 7, "+"]]:
         raise HarnessError("normaliser: blocks")
     if norm(c.extract_sequence())[1] != "ACGT" or norm(iter([1, 2]))[1] != [["int", 1], ["int", 2]]:
         raise HarnessError("normaliser: sequence / iterator")
@@ -442,6 +493,9 @@ def run_case(case, ctx):
         return CG.build_targets(case)[path]
 
     cats = {p: CG.catalogue(o, case, p, rebuild) for p, o in T.items()}
+    if CG.CATALOGUE_REFUSALS[0]:
+        ctx.bump("catalogue.fixed-arguments-refused", CG.CATALOGUE_REFUSALS[0])
+        CG.CATALOGUE_REFUSALS[0] = 0
     questions = [(p, a) for p, accs in cats.items() for a in accs]
     ctx.note(("root", kind, pmode, len(T)), nontrivial=False, klass=f"{kind}-on-{pmode}")
     ctx.bump("targets", len(T))
@@ -474,6 +528,8 @@ def _one_history(ctx, case, cats, questions, rng, h, kind, pmode):
             hist.append("<evict-storm>")
             continue
         r = rng.random()
+        if kind == "codon" and r >= 0.5:
+            r = 0.8  # the registry of codons is the only state: construct look-alike codons often
         if r < 0.78:
             p, acc = rng.choice(hotq) if hotq and rng.random() < 0.5 else rng.choice(questions)
             ans = ask(A[p], acc)
@@ -493,6 +549,7 @@ def _one_history(ctx, case, cats, questions, rng, h, kind, pmode):
             hist.append("<evict-storm>")
     ctx.bump("histories")
     ctx.bump("history-steps", hlen)
+    _anchor(ctx, case, A, "after-history")
 
     cap = case["qcap"]
     if len(questions) > cap:
@@ -517,16 +574,19 @@ def _one_history(ctx, case, cats, questions, rng, h, kind, pmode):
         if a != b:
             kindof = "exception" if "raised" in (a[0], b[0]) else ("type" if top_type(a[1]) != top_type(b[1]) else "value")
             ctx.check("hist.twin", False, key=(cls, acc.name, kindof), target=p, accessor=acc.name, cls=cls, difference=kindof,
-                      after_history=short(a), fresh_twin=short(b), history=hist[-80:], history_len=len(hist), evicted=evicted)
+                      after_history=short(a), fresh_twin=short(b), history=hist[-80:], history_len=len(hist), evicted=evicted,
+                      equal_modulo_sequence_type_spelling=canon_sequence_type(a) == canon_sequence_type(b), full_a=_witness(a), full_b=_witness(b))
         else:
             ctx.seen("hist.twin")
         f = first.get((p, acc.name))
         if f is not None:
-            ctx.check("hist.repeat", f == a, key=(cls, acc.name), target=p, accessor=acc.name, cls=cls, first=short(f), later=short(a),
-                      history=hist[-80:])
+            if f != a:
+                ctx.check("hist.repeat", False, key=(cls, acc.name), target=p, accessor=acc.name, cls=cls, first=short(f), later=short(a), history=hist[-80:],
+                          equal_modulo_sequence_type_spelling=canon_sequence_type(f) == canon_sequence_type(a), full_a=_witness(f), full_b=_witness(a))
+            else:
+                ctx.seen("hist.repeat")
         first.setdefault((p, acc.name), a)
-    ctx.seen("hist.repeat", 0)
-    _anchor(ctx, case, A, "after-history")
+    _anchor(ctx, case, A, "after-questions")
 
 
 # --------------------------------------------------------------------------------------------------------------
@@ -553,6 +613,11 @@ def _anchor(ctx, case, objs, when):
             got = sorted([b.start, b.end] for b in o.blocks)
             ok = got == sorted(blocks) and o.strand.to_symbol() == strand and len(o) == sum(e - s for s, e in blocks)
             ctx.check("hist.anchor", ok, key=(type(o).__name__, "blocks/strand"), target=path, got=[got, o.strand.to_symbol()], want=[sorted(blocks), strand], when=when)
+            if all(e > s for s, e in blocks):
+                # without empty blocks "some base is covered twice" is what the documented flag says (a SingleInterval never overlaps itself)
+                want_ov = PM.self_overlapping([tuple(b) for b in blocks])
+                ctx.check("hist.anchor", o.is_overlapping is want_ov, key=(type(o).__name__, "is_overlapping"), target=path, got=o.is_overlapping, want=want_ov,
+                          blocks=blocks, when=when)
             if case["pmode"] in ("seq", "chunk") and strand != "." and not PM.self_overlapping([tuple(b) for b in blocks]) and len(o) > 0:
                 g = case["genome"] if case["pmode"] == "seq" else case["genome"][case["window"][0]:case["window"][1]]
                 want = SM.extract(PM.positions([tuple(b) for b in blocks], strand), strand, g)
@@ -682,4 +747,24 @@ def _ops_phase(ctx, case, cats, questions, rng, kind):
 
 
 def classify(v):
+    """Mechanistic classifier of the one finding that may be recorded rather than repaired (see the final report):
+
+    K-parent-cache-sequence-type-spelling: "chromosome" and SequenceType.CHROMOSOME compare AND hash equal, so the two spellings
+    share one entry of the lru_cache around Parent / _unique_value_or_none; whichever spelling was cached first is what
+    `sequence_type` / `parent_type` / repr report afterwards.  Recognised by re-deriving it from the witness: the two answers
+    are both regular answers and become identical once every SequenceType member is replaced by its string value (and they
+    are not identical before).  Any other difference - another value, another exception - stays a violation."""
+    if v.get("monitor") not in ("hist.twin", "hist.repeat"):
+        return None
+    d = v.get("detail") or {}
+    a, b = d.get("full_a"), d.get("full_b")
+    if isinstance(a, str) and isinstance(b, str):
+        import json
+
+        a, b = json.loads(a), json.loads(b)
+        same = a != b and canon_sequence_type(a) == canon_sequence_type(b)
+    else:
+        same = d.get("equal_modulo_sequence_type_spelling") is True
+    if same and d.get("difference", "value") in ("value", "type"):
+        return "K-parent-cache-sequence-type-spelling"
     return None
